@@ -170,9 +170,26 @@ def parseAtomSrc (s : List Char) : Option AtomSrc :=
 
 /-! ### templates -/
 
-/-- `[a:b,c]` directly after a reference (`Parser._part_dimension`): one `(min, max)` pair per
-    entry, `n` alone meaning `(n, n)`. `none` = no slice there. -/
-def parseSlice (s : List Char) : Option (List (Option Nat × Option Nat) × List Char) :=
+/-- one slice entry as `slice_value` receives it (`_part_dimension(slicing=True)`): the index `n`
+    or the range `a:b` with optional bounds — `[2:2]` is an empty range, `[2]` an index -/
+inductive SliceEntry where
+  | idx (n : Nat)
+  | range (a b : Option Nat)
+deriving Repr, DecidableEq
+
+/-- one entry of a slice: `a:b`, `a:`, `:b`, `:` (ranges) or `n` (index); anything else is refused -/
+def sliceEntry (cs : List Char) : Option SliceEntry :=
+  if cs.contains ':' then
+    let a := cs.takeWhile (· ≠ ':')
+    let b := (cs.dropWhile (· ≠ ':')).drop 1
+    if b.contains ':' then none
+    else some (.range (if a.isEmpty then none else some (digitsVal a)) (if b.isEmpty then none else some (digitsVal b)))
+  else if cs.isEmpty then none else some (.idx (digitsVal cs))
+
+/-- `[a:b,c]` directly after a reference (`Parser._part_dimension`): one `SliceEntry` per
+    entry. `none` = no slice there.  The body is split at the commas
+    with the list splitter `List.splitOn` (same pieces as `str.split(",")`, empty ones included). -/
+def parseSlice (s : List Char) : Option (List SliceEntry × List Char) :=
   match s with
   | '[' :: t =>
     let body := t.takeWhile (fun c => c.isDigit ∨ c = ':' ∨ c = ',')
@@ -180,20 +197,23 @@ def parseSlice (s : List Char) : Option (List (Option Nat × Option Nat) × List
     | ']' :: rest =>
       if body.isEmpty then none
       else
-        let parts := (String.ofList body).splitOn ","
-        let conv (p : String) : Option (Option Nat × Option Nat) :=
-          let cs := p.toList
-          if cs.contains ':' then
-            let a := cs.takeWhile (· ≠ ':')
-            let b := (cs.dropWhile (· ≠ ':')).drop 1
-            if b.contains ':' then none
-            else some (if a.isEmpty then none else some (digitsVal a), if b.isEmpty then none else some (digitsVal b))
-          else if cs.isEmpty then none else some (some (digitsVal cs), some (digitsVal cs))
-        match parts.mapM conv with
+        match (body.splitOn ',').mapM sliceEntry with
         | some l => some (l, rest)
         | none => none
     | _ => none
   | _ => none
+
+/-- `_part_dimension` raises `ValueError`: the text starts with `[` + digits/colons/commas + `]`
+    (the regex matches) but an entry is not `n`, `a:b`, `a:`, `:b`, `:` — two colons
+    (`dmin,dmax = dim.split(':')`) or an empty entry (`int('')`). -/
+def sliceRaises (s : List Char) : Bool :=
+  match s with
+  | '[' :: t =>
+    let body := t.takeWhile (fun c => c.isDigit ∨ c = ':' ∨ c = ',')
+    match t.dropWhile (fun c => c.isDigit ∨ c = ':' ∨ c = ',') with
+    | ']' :: _ => if body.isEmpty then false else ((body.splitOn ',').mapM sliceEntry).isNone
+    | _ => false
+  | _ => false
 
 /-- `:[0-9.]*[sdfeb]+` (`Parser.part_format`) -/
 def parseFormat (s : List Char) : Option (List Char × List Char) :=
@@ -209,7 +229,7 @@ def parseFormat (s : List Char) : Option (List Char × List Char) :=
 /-- One piece of a template result. -/
 inductive Piece where
   | text (c : Char)
-  | hole (path : List Char) (slice : Option (List (Option Nat × Option Nat))) (fmt : Option (List Char))
+  | hole (path : List Char) (slice : Option (List SliceEntry)) (fmt : Option (List Char))
   | raise                                        -- `p.ccode[0]` on an empty rest: IndexError
 deriving Repr, DecidableEq
 
@@ -222,17 +242,21 @@ def scanTemplate : Nat → List Char → List Piece
   | fuel + 1, c :: rest =>
     if c = '{' then
       -- Parser(code=rest): part_reference `^(\s*({([^}]*)}))`, part_slice (inside part_reference
-      -- and once more), part_format
+      -- and once more), part_format.  A malformed slice raises (`sliceRaises`), also when no
+      -- reference was found: `p.part_slice()` is called on the unchanged code then.
+      let noRef : List Piece := if sliceRaises rest then [.raise] else .text c :: scanTemplate fuel rest
       let r0 := rest.dropWhile isWs
       match r0 with
       | '{' :: t =>
         let path := t.takeWhile (· ≠ '}')
         match t.dropWhile (· ≠ '}') with
         | '}' :: r1 =>
+          if sliceRaises r1 then [.raise] else
           let (sl, r2) := match parseSlice r1 with
             | some (l, r) => (some l, r)
             | none => (none, r1)
           -- second part_slice call (overwrites when it matches again)
+          if sliceRaises r2 then [.raise] else
           let (sl, r2) := match parseSlice r2 with
             | some (l, r) => (some l, r)
             | none => (sl, r2)
@@ -246,9 +270,30 @@ def scanTemplate : Nat → List Char → List Piece
             | '}' :: r4 => .hole path sl fm :: scanTemplate fuel r4
             | [] => [.raise]
             | _ => .text c :: scanTemplate fuel rest
-        | _ => .text c :: scanTemplate fuel rest
-      | _ => .text c :: scanTemplate fuel rest
+        | _ => noRef
+      | _ => noRef
     else .text c :: scanTemplate fuel rest
+
+/-- The slice entries as the solver passes them to `slice_value`, the format as it is put into
+    `"{0" + fmt + "}"`. -/
+abbrev HoleFn := List Char → Option (List SliceEntry) → Option (List Char) → Option (List Char)
+
+/-- `TemplateSolver.solve`, output side: copied characters and, for every hole, the characters of
+    `("{0"+fmt+"}").format(v)` / `str(v)` where `v` is the requested node's (sliced) value — the
+    parameter `hole` (`none` = the request, the slicing or the formatting raises, which ends the
+    solve with that exception, as does the `IndexError` piece). -/
+def assemble (hole : HoleFn) : List Piece → Option (List Char)
+  | [] => some []
+  | .text c :: r => (assemble hole r).map (c :: ·)
+  | .hole p sl fm :: r =>
+    match hole p sl fm with
+    | some s => (assemble hole r).map (s ++ ·)
+    | none => none
+  | .raise :: _ => none
+
+/-- The whole `TemplateSolver.solve(text)`: scan, then assemble. -/
+def solveTemplate (hole : HoleFn) (text : List Char) : Option (List Char) :=
+  assemble hole (scanTemplate (text.length + 1) text)
 
 /-! ### renderers (specification side): blanks around binary operators mandatory, extra optional -/
 
